@@ -185,3 +185,45 @@ def same(a, b):
 
 def text(e):
     return src(e)
+
+
+# ---------------------------------------------------------------- commutation-insensitive text
+class _Canon(ast.NodeTransformer):
+    """sorts the operands of (chains of) `*` - and optionally `+` - by their source text"""
+
+    def __init__(self, add=False):
+        self.ops = (ast.Mult, ast.Add) if add else (ast.Mult,)
+
+    def visit_BinOp(self, node):
+        self.generic_visit(node)
+        if isinstance(node.op, self.ops):
+            opt = type(node.op)
+            parts = []
+
+            def flat(n):
+                if isinstance(n, ast.BinOp) and isinstance(n.op, opt):
+                    flat(n.left)
+                    flat(n.right)
+                else:
+                    parts.append(n)
+            flat(node)
+            parts.sort(key=lambda p: ast.unparse(p))
+            out = parts[0]
+            for p_ in parts[1:]:
+                out = ast.BinOp(left=out, op=opt(), right=p_)
+            return ast.copy_location(out, node)
+        return node
+
+
+def canon(e, add=False):
+    """canonical source text (no blanks) of an expression or of expression text; `a*b` and `b*a` give the same string"""
+    if isinstance(e, str):
+        try:
+            e = ast.parse(e, mode="eval").body
+        except SyntaxError:
+            return e.replace(" ", "")
+    else:
+        e = copy.deepcopy(e)
+    e = _Canon(add).visit(e)
+    ast.fix_missing_locations(e)
+    return ast.unparse(e).replace(" ", "")
